@@ -91,9 +91,124 @@ fn public_reader(rep: &Report, case: Value, file: &[u8], r_sk: &[u8; 32], r_pk: 
     let _ = zero_eph;
 }
 
+/// "Encryption to a recipient key that forces an all-zero shared secret is refused, so no file is ever produced", at the
+/// program level: each small-order point (with a valid checksum) as a keyring entry named with -t; -o names a path
+/// that is absent, or one that already holds a file. Refused means: exit 1, nothing created, the existing file untouched;
+/// also nothing on a stdout pipe.
+fn cli_refused_recipients(rep: &Report) {
+    use rayon::prelude::*;
+    use crate::fx::Party;
+    use crate::proc::{self, Cmd, Scratch};
+    let seed = rep.seed;
+    let alice = Party::new(seed, "alice", "alicepw");
+    let points: Vec<(String, [u8; 32])> = crate::c19::special_points().into_iter().filter(|(n, _)| n.starts_with("small-order")).collect();
+    let mut jobs = vec![];
+    for pi in 0..points.len() {
+        for wiring in ["-o absent", "-o holding a file", "stdout pipe"] {
+            jobs.push((pi, wiring));
+        }
+    }
+    jobs.par_iter().for_each(|&(pi, wiring)| {
+        rep.eval(1);
+        rep.nontrivial(format!("cli-refused-recipient-{}-{}", pi, wiring).as_bytes());
+        let (pname, u) = &points[pi];
+        let attempt = || -> Result<(), String> {
+            let sc = Scratch::new();
+            sc.write("kr.txt", format!("{}\n{}", alice.entry(true), proc::keyring_entry("lowkey", &r::encode_pk(u), None)).as_bytes());
+            sc.write("plain.bin", b"attack at dawn");
+            let prior = vec![b'K'; 5000];
+            let mut a = vec!["encrypt", "plain.bin", "-t", "lowkey", "-f", "alice", "-k", "kr.txt", "--env-pass"];
+            if wiring != "stdout pipe" {
+                a.extend_from_slice(&["-o", "out.ktl"]);
+            }
+            if wiring == "-o holding a file" {
+                sc.write("out.ktl", &prior);
+            }
+            let o = proc::run(&Cmd::new(&a).env("KESTREL_PASSWORD", "alicepw"), &sc.0);
+            o.well_behaved()?;
+            if o.ok() {
+                return Err(format!("exit status 0: a file was produced for the recipient key {} ({})", pname, hx(u)));
+            }
+            match (wiring, sc.read("out.ktl")) {
+                ("-o absent", Some(f)) => Err(format!("the encryption was refused but a file of {} bytes was created at the -o path", f.len())),
+                ("-o holding a file", Some(f)) if f != prior => Err(format!("the encryption was refused but the file at the -o path was changed ({} -> {} bytes)", prior.len(), f.len())),
+                ("-o holding a file", None) => Err("the encryption was refused but the file at the -o path was removed".into()),
+                ("stdout pipe", _) if !o.stdout.is_empty() => Err(format!("the encryption was refused but {} bytes were written to stdout", o.stdout.len())),
+                _ => Ok(()),
+            }
+        };
+        if attempt().is_err() {
+            if let Err(e) = attempt() {
+                rep.violation("cli/refused-recipient", json!({"kind":"cli-refused","point":pname,"wiring":wiring}), format!("kestrel encrypt -t <{}> [{}]: {}", pname, wiring, e));
+            }
+        }
+    });
+    rep.extra("cli_refused_recipient_runs", json!(jobs.len()));
+}
+
+/// The sender named is the keyring entry whose key is the authenticated sender key, wherever the entries stand: every order
+/// of {alice (public), carol (public), bob (private), dave (private)}; a file from alice to bob, and one from dave to bob.
+fn cli_keyring_orders(rep: &Report) {
+    use rayon::prelude::*;
+    use crate::fx::Party;
+    use crate::proc::{self, Cmd, Scratch};
+    let seed = rep.seed;
+    let ps = [Party::new(seed, "alice", "x"), Party::new(seed, "carol", "x"), Party::new(seed, "bob", "bobpw"), Party::new(seed, "dave", "bobpw")];
+    let with_priv = [false, false, true, true];
+    let p = plaintext(seed ^ 0x5e, 40);
+    let from_alice = r::write_key_file(&ps[0].sk, &ps[2].pk, &derive32(seed, "c05-ord-e"), &derive32(seed, "c05-ord-p"), &p, &[40]).unwrap();
+    let from_dave = r::write_key_file(&ps[3].sk, &ps[2].pk, &derive32(seed, "c05-ord-e2"), &derive32(seed, "c05-ord-p2"), &p, &[40]).unwrap();
+    let mut perms: Vec<Vec<usize>> = vec![];
+    for a in 0..4 {
+        for b in 0..4 {
+            for c in 0..4 {
+                for d in 0..4 {
+                    let v = vec![a, b, c, d];
+                    let mut s = v.clone();
+                    s.sort();
+                    if s == vec![0, 1, 2, 3] {
+                        perms.push(v);
+                    }
+                }
+            }
+        }
+    }
+    perms.par_iter().for_each(|perm| {
+        rep.eval(2);
+        rep.nontrivial(format!("cli-keyring-order-{:?}", perm).as_bytes());
+        let kr: String = perm.iter().map(|&i| ps[i].entry(with_priv[i])).collect::<Vec<_>>().join("\n");
+        let order: Vec<&str> = perm.iter().map(|&i| ps[i].name.as_str()).collect();
+        for (file, sender) in [(&from_alice, "alice"), (&from_dave, "dave")] {
+            let attempt = || -> Result<(), String> {
+                let sc = Scratch::new();
+                sc.write("kr.txt", kr.as_bytes());
+                sc.write("in.ktl", file);
+                let o = proc::run(&Cmd::new(&["decrypt", "in.ktl", "-t", "bob", "-k", "kr.txt", "-o", "out.bin", "--env-pass"]).env("KESTREL_PASSWORD", "bobpw"), &sc.0);
+                o.well_behaved()?;
+                if !o.ok() || sc.read("out.bin").as_deref() != Some(&p[..]) {
+                    return Err(format!("decrypt fails: {}", o.summary()));
+                }
+                let words: Vec<&str> = o.stderr.split(|c: char| !c.is_alphanumeric()).collect();
+                let named: Vec<&str> = ["alice", "carol", "dave"].into_iter().filter(|n| words.contains(n)).collect();
+                if named != vec![sender] {
+                    return Err(format!("the sender is reported as {:?}, the authenticated sender key is {}'s", named, sender));
+                }
+                Ok(())
+            };
+            if attempt().is_err() {
+                if let Err(e) = attempt() {
+                    rep.violation("cli/sender-depends-on-keyring-order", json!({"kind":"cli-order","order":order,"sender":sender}), format!("keyring order {:?}, file from {} to bob: {}", order, sender, e));
+                }
+            }
+        }
+    });
+    rep.extra("cli_keyring_orders", json!(perms.len()));
+}
+
 pub fn run(rep: &'static Report) {
     let seed = rep.seed;
     rep.set_rule("E-GRID: the full product of key-role assignments over K = {S, S', R, R'} for the real encryptor (4^4) and for the REF forger (roles x forging degrees), all 2^4 field mixes of pairs of authentic files, and all 52 special X25519 encodings as recipient and as ephemeral key; each point is one execution of the real key_encrypt/key_decrypt compared with the role model. distinct non-trivial = distinct tuples");
+    rep.rule_add("CLI: each small-order point as the -t entry x {-o absent, -o holding a file, stdout pipe}: exit 1, nothing created, changed or written. All 24 orders of a 4-entry keyring (two public-only, two with private keys): the sender named does not depend on the order.");
     rep.rule_add("keyless reader on the CLI's output under every getrandom answer schedule; CLI keyring precedence (-k vs a decoy KESTREL_KEYRING) for encrypt and two decrypt cases.");
     rep.assume("key values from a seed-derived 4-key alphabet; DH hardness assumed (a forger cannot compute DH with a private key it does not hold)");
     let k = idents(seed);
@@ -596,10 +711,20 @@ pub fn run(rep: &'static Report) {
     rep.extra("special_points", json!(sp.len()));
     rep.extra("small_order_encodings", json!(small));
     rep.sample(json!({"kind":"special-recipient","name":"small-order-5-bit255","expect":"key_encrypt returns Err and writes nothing"}));
+    cli_refused_recipients(rep);
+    cli_keyring_orders(rep);
     rep.set_exhaustive(true);
 }
 
 pub fn replay(rep: &'static Report, case: &Value) {
+    if case["kind"] == "cli-order" {
+        cli_keyring_orders(rep);
+        return;
+    }
+    if case["kind"] == "cli-refused" {
+        cli_refused_recipients(rep);
+        return;
+    }
     // the grid is tiny: re-run it and report only clauses that recur (verdicts are deterministic)
     println!("  replaying the C05 grid (deterministic, <1 s); case: {}", case);
     run(rep);
